@@ -13,6 +13,7 @@ DECIDED = ("R1 the override is stored in a thread_local LocalKey<Cell<LocalFlag>
            "workspace references either storage item, and closures passed to LocalKey::with do not return a reference; "
            "R4 every public function performs at most one atomic operation on the global flag on any path, and toggle is a single read-modify-write, "
            "so interleavings at operation granularity are complete.")
+DECIDED = DECIDED + ' R5 a saved override cannot leave its thread: LocalEnableState has a field whose type is !Send by the auto-trait rules over its structure (&T with T !Sync, raw pointers, Rc, guards), and no explicit Send/Sync impl.'
 NOT_DECIDED = ("nothing is executed under a scheduler: the argument is that another thread can reach a thread's override only through the thread_local key, "
                "which the type system makes per-thread; memory-ordering arguments (Release/Acquire) are not part of the property and are not checked")
 EXPLANATION = ("All clauses are structural. Effect tables come from K4 propagation with models for LocalKey::with, Cell::{get,set,take} and the atomic "
